@@ -12,10 +12,14 @@
           the root itself is named by its directory name (also as `[root.name, *rel.parts[:-1]]` + `rel.stem` only below the root)
   C04.R4  hierarchy: every scanned module becomes a node; all its ancestors (get_parent_modules) become nodes and every consecutive
           (parent, child) pair of the chain gets an `inherits=True` edge; nodes are never created from *imported* names
+          (a construction whose shape cannot be read - another algorithm for the hierarchy, ledgers turned into the graph at the end -
+          is tabulated on model inputs by the finite-domain evaluator, rules/c04_model.py: nodes, inherits edges and import edges of
+          the built graph against what the property demands; a differing input is a counterexample)
   C04.R5  prefixes: absolute-import prefix = module_path.parent relative to root_path.parent (dotted), used whenever module_path
           differs from root_path; the internal-module set comes from the scan; every absolute importee is `prefix.name` exactly when
           that is a scanned module (the sub-module test of `from x import y` is made on the adjusted name; decision table over all
-          membership scenarios), relative importees never are; no character-set strip used as prefix/suffix removal
+          membership scenarios; tests on the *characters* of the imported name are free variables of that table: an outcome that depends
+          on the spelling of the name is a violation), relative importees never are; no character-set strip used as prefix/suffix removal
 
 All rules are evaluated on symbolic executions of *public* entry points (rules/c04_symx.py): `get_evaluable_architecture`,
 `get_evaluable_architecture_for_module_objects`, `Parser.parse`, `NetworkxGraph.__init__`, `ImportConverter.convert`.  Private helpers
@@ -55,7 +59,7 @@ def run(repo: Repo) -> Result:
         "along all its ancestors, no node from imported names; (e) the absolute-import prefix and its application to absolute importees."
     )
     res.not_decided = "names for arbitrary directory trees and 'sub-scan = restriction of the whole scan' (relations over concrete trees)."
-    res.trusted_base = ["pathlib / os.path semantics", "symbolic executor rules/c04_symx.py"]
+    res.trusted_base = ["pathlib / os.path semantics", "symbolic executor rules/c04_symx.py", "rules/c09_eval.py (finite-domain evaluator, used by rules/c04_model.py when the shape of the graph construction cannot be read)"]
     rule_r1(repo, res)
     n = scan.run_registration(repo, res, "C04.R2")
     if not any(u["rule"] == "C04.R2" for u in res.undecided):
@@ -73,6 +77,38 @@ def run(repo: Repo) -> Result:
 
 
 # =========================================================================== R1
+
+# classes whose construction / public methods are the vocabulary of the rules (they stay events of the execution)
+ANCHOR_CLASSES = {"Parser", "FileFilter", "Config", "ExternalImportFilter", "NetworkxGraph", "ImportConverter", "EvaluableArchitectureGraph", "ImporteeModuleCalculator", "NamedModule", "AbsoluteImport", "RelativeImport", "Import"}
+
+
+def _run_entry(repo: Repo, T, fi: FuncInfo) -> "tuple[SymX, Trace]":
+    """Symbolic execution of a public entry point that also follows the objects it builds: a class of the repository that is
+    instantiated on the way and is not itself vocabulary of the rules (a policy / options / pipeline object that took over what
+    helper functions did) has its constructor and its methods executed in place, so the calls made *inside* them are seen."""
+    from .c04_symx import _private_helper_class, default_policy
+
+    opened: set[str] = set()
+    sx = tr = None
+    for _round in range(4):
+        def policy(caller: FuncInfo, callee: FuncInfo, opened=frozenset(opened)) -> bool:
+            if default_policy(fi, caller, callee):
+                return True
+            return callee.cls is not None and callee.cls.fq in opened and not (callee.name.startswith("__") and callee.name.endswith("__"))
+
+        def enter_ctor(ci, opened=frozenset(opened)) -> bool:
+            usual = (not ci.bases or _private_helper_class(ci)) and ci is not fi.cls and not ci.is_dataclass and (ci.module is fi.module or ci.name.startswith("_"))
+            return usual or ci.fq in opened
+
+        sx = SymX(repo, T, policy=policy, enter_ctor=enter_ctor)
+        tr = sx.run(fi)
+        built = {e.func[1] for e in tr.events if e.kind == "call" and e.func[0] == "cls" and e.func[1] in repo.classes}
+        new = {fq for fq in built if fq not in opened and fq.rsplit(".", 1)[-1] not in ANCHOR_CLASSES and not any(b.endswith(("NamedTuple", "Enum")) for b in repo.classes[fq].bases)}
+        if not new:
+            break
+        opened |= new
+    assert sx is not None and tr is not None
+    return sx, tr
 
 
 def _bind_args(callee: FuncInfo, e: Event) -> dict[str, Term]:
@@ -236,8 +272,7 @@ def rule_r1(repo: Repo, res: Result) -> None:
         # root_path := dirname(root_module.__file__), module_path := dirname(module.__file__)
         _r1_same_api_calls(repo, res, T, ge, gm)
     # ---- the path entry point: every option reaches the consumer of its role
-    sx2 = SymX(repo, T)
-    tr2 = sx2.run(ge)
+    sx2, tr2 = _run_entry(repo, T, ge)
     tag = f"{ge.relpath}::{ge.qualname}"
     p = ge.param_names
     want_names = ["root_path", "module_path", "exclusions", "exclude_external_libraries", "level_limit", "regex_exclusions", "external_exclusions", "regex_external_exclusions"]
@@ -1037,7 +1072,55 @@ def _accessor_hands_out_cached_list(repo: Repo, accessor: str, gpm: FuncInfo) ->
     return True
 
 
+CONSTRUCTION_TAGS = ("[node", "every scanned module becomes a node", "ancestors of every scanned module", "[edge end from imported name")
+
+
 def rule_r4(repo: Repo, res: Result) -> None:
+    """The symbolic reading of the construction; where it cannot read the shape (or reads a defect into a shape it only half
+    understands), the construction is tabulated on model inputs (rules/c04_model.py)."""
+    scratch = Result("C04")
+    _rule_r4_symbolic(repo, scratch)
+    und = [u for u in scratch.undecided if u["rule"] == "C04.R4"]
+    bad = [o for o in scratch.obligations if not o.ok]
+    bad_construction = [o for o in bad if any(t in o.construct for t in CONSTRUCTION_TAGS)]
+    verdict = detail = None
+    if und or bad_construction:
+        from . import c04_model
+
+        g = repo.cls(NXGRAPH, "NetworkxGraph")
+        init = g.methods.get("__init__")
+        p = init.param_names if init is not None else []
+        if len(p) >= 3:
+            verdict, detail = c04_model.hierarchy_on_models(repo, g, p[1], p[2], p[3] if len(p) > 3 else None)
+    g_ = repo.cls(NXGRAPH, "NetworkxGraph")
+    init_ = g_.methods.get("__init__")
+    tag = f"{init_.relpath if init_ is not None else NXGRAPH}::NetworkxGraph::nodes, hierarchy edges and import edges on model inputs"
+    wh = where(init_, init_.node) if init_ is not None else ""
+    if und and not bad and verdict is not None:
+        # the shape could not be read; its meaning on the model inputs decides
+        res.obligations += scratch.obligations
+        res.floors.update({k: v for k, v in scratch.floors.items() if v[1] >= v[0]})
+        res.undecided += [u for u in scratch.undecided if u["rule"] != "C04.R4"]
+        res.add("C04.R4", tag, verdict, detail + (f" (symbolic reading gave up: {und[0]['detail'][:160]})" if verdict else ""), wh, kind="decision-table")
+        return
+    if bad_construction and len(bad_construction) == len(bad) and verdict is True:
+        # a defect read into a construction whose result is right on every model input: the reading is not trusted
+        res.obligations += [o for o in scratch.obligations if o.ok]
+        res.floors.update({k: v for k, v in scratch.floors.items() if v[1] >= v[0]})
+        res.undecided += scratch.undecided
+        res.undecide("C04.R4", tag, f"the symbolic reading reports `{bad[0].detail[:200]}`, but {detail[:200]}: the two do not agree, no verdict", wh)
+        return
+    res.obligations += scratch.obligations
+    res.floors.update(scratch.floors)
+    res.undecided += scratch.undecided
+    res.observations += scratch.observations
+    if verdict is False:
+        res.add("C04.R4", tag, False, detail, wh, kind="decision-table")  # a concrete input on which the built graph is wrong
+    elif und and not bad and detail is not None:
+        res.undecide("C04.R4", tag, f"the construction could not be tabulated on model inputs either: {detail[:240]}", wh)
+
+
+def _rule_r4_symbolic(repo: Repo, res: Result) -> None:
     T = types_of(repo)
     g = repo.cls(NXGRAPH, "NetworkxGraph")
     init = g.methods.get("__init__")
@@ -1765,8 +1848,7 @@ def rule_r5(repo: Repo, res: Result) -> None:
                 res.add("C04.R5", repo.key(f, stmt_of(c)) + f" [{norm(c, 50)}]", single, "strips a single character" if single else f"`{norm(c, 70)}` removes any run of the *characters* of its argument, not that suffix/prefix: path components spelled with those letters are eaten as well", where(f, c), kind="structural")
     # ---- the prefix handed to the converter by the path entry point
     ge = repo.func(ENTRY, "get_evaluable_architecture")
-    sx = SymX(repo, T)
-    tr = sx.run(ge)
+    sx, tr = _run_entry(repo, T, ge)
     tag = f"{ge.relpath}::{ge.qualname}"
     conv_cls = repo.cls(CONVERTER, "ImportConverter")
     convert = conv_cls.methods.get("convert")
@@ -1923,6 +2005,31 @@ def _check_adjusted_by_cases(sx: SymX, name: Term, P: Term, I: Term, guard: Form
     return verdicts[0] if verdicts else (None, "no feasible case of the import statement kinds")
 
 
+_TEXT_METHODS = {"startswith", "endswith", "partition", "rpartition", "split", "rsplit", "removeprefix", "removesuffix", "find", "rfind", "index", "count"}
+
+
+def _textual_test(t: Term, raw: set, I: Term) -> bool:
+    """A test on the *characters* of an imported name (`x.startswith(prefix + ".")`, `x.partition(".")[0] == prefix.partition(".")[0]`,
+    `x.split(".")[0] in (...)`, `x[:len(p)] == p`): it says nothing about which names were scanned, so in the decision table it is a
+    free variable next to the membership facts.  Tests for None / emptiness of the name are not textual (they select the statement
+    form), neither are membership tests in the internal-module set."""
+
+    def derived(x: Term) -> bool:
+        # a piece of text cut out of a raw name
+        for y in subterms(x):
+            if y[0] == "mcall" and y[1] in raw and y[2] in _TEXT_METHODS:
+                return True
+            if y[0] == "slice" and y[1] in raw:
+                return True
+        return False
+
+    if t[0] == "mcall" and t[1] in raw and t[2] in ("startswith", "endswith"):
+        return True
+    if t[0] == "cmp" and t[1] in ("==", "!=", "in", "not in") and t[3] != I:
+        return derived(t[2]) or derived(t[3]) or (t[1] in ("in", "not in") and t[3] in raw and not is_const(t[2], "")) or (t[1] in ("==", "!=") and (t[2] in raw or t[3] in raw) and not any(o[0] == "const" and o[1] in (None, "") for o in (t[2], t[3])))
+    return False
+
+
 def _check_adjusted(sx: SymX, name: Term, P: Term, I: Term, guard: Formula = TRUE):
     """Decision table of an absolute importee over membership of the candidate names in the internal-module set.
 
@@ -1959,9 +2066,9 @@ def _check_adjusted(sx: SymX, name: Term, P: Term, I: Term, guard: Formula = TRU
     # textual tests on the raw names (`x.startswith(prefix + ".")`) say nothing about what was scanned: free variables
     raw = {n[1]} | ({a[1]} if a is not None else set())
     textual = []
-    for k in sorted(_all_guard_atoms(sx, name, I)):
+    for k in sorted(_all_guard_atoms(sx, name, I) | atoms_of(guard)):
         t = sx.atoms.get(k)
-        if t is not None and t[0] == "mcall" and t[1] in raw and t[2] in ("startswith", "endswith") and ("truth", t) not in universe:
+        if t is not None and _textual_test(t, raw, I) and ("truth", t) not in universe:
             textual.append(t)
             universe = universe + [("truth", t)]
     labels = {P: "prefix", n[1]: "x"}
@@ -1971,8 +2078,10 @@ def _check_adjusted(sx: SymX, name: Term, P: Term, I: Term, guard: Formula = TRU
 
     def text(nm) -> str:
         if nm and nm[0] == "truth":
-            t_ = nm[1]
-            return f"{labels.get(t_[1], '?')}.{t_[2]}({', '.join(show(z, 40) for z in t_[3])})".replace(show(P), "prefix")
+            out_ = show(nm[1], 160)
+            for sym_, label_ in sorted(labels.items(), key=lambda kv: -len(show(kv[0]))):
+                out_ = out_.replace(show(sym_), label_)
+            return out_
         return ".".join(q[1] if q[0] == "c" else labels.get(q[1], show(q[1], 40)) for q in nm)
 
     mismatches = []
@@ -2009,7 +2118,9 @@ def _check_adjusted(sx: SymX, name: Term, P: Term, I: Term, guard: Formula = TRU
         tested = _prefix_tested(sx, name, P, I) or any(
             (t_ := sx.atoms.get(k_)) is not None and t_[0] == "cmp" and t_[1] == "in" and t_[3] == I and _prefix_tested(sx, t_[2], P, I) for k_ in atoms_of(guard)
         )
-        if all(p not in m[3] for m in mismatches) and not tested:
+        if any(k[0] == "truth" for k in inside):
+            why = "whether the name is adjusted depends on how the imported name is *spelled*, not only on which names were scanned - e.g. root `shop`, module_path `shop/shop`: `import shop.x` written relative to module_path's parent (`shop.shop.x` is scanned, `shop.x` is not) is mistaken for a fully qualified name and no longer resolves"
+        elif all(p not in m[3] for m in mismatches) and not tested:
             why = "its name never passes the root-prefix adjustment: imports written relative to module_path's parent no longer resolve when a sub-directory is scanned"
         elif a is not None and len(got) < len(expected):
             why = "the sub-module test is skipped or made on another name than the adjusted one: the importee is the package instead of the sub module"
